@@ -190,6 +190,18 @@ Theorem C10_python_digit_name_refuted :
 Proof. exact Proofs.C10.python_digit_name_refuted. Qed.
 Print Assumptions C10_python_digit_name_refuted.
 
+Theorem C10_kotlin_digit_name_refuted :
+  exists cfg pd text, dom_C10 CKT pd = true /\ known_C10 CKT [] pd = ["C10-digit-name"%string] /\
+    kt_generate uc_exec cfg pd = Ok text /\ contains_sub (lit "val 1st: String") text = true.
+Proof. exact Proofs.C10.kotlin_digit_name_refuted. Qed.
+Print Assumptions C10_kotlin_digit_name_refuted.
+
+Theorem C10_go_digit_name_refuted :
+  exists cfg pd text, dom_C10 CGO pd = true /\ known_C10 CGO [] pd = ["C10-digit-name"%string] /\
+    go_generate uc_exec cfg pd = Ok text /\ contains_sub (lit "1x string `json:") text = true.
+Proof. exact Proofs.C10.go_digit_name_refuted. Qed.
+Print Assumptions C10_go_digit_name_refuted.
+
 (* reachable from the IR only (the parser rejects tag/content on an enum without data-carrying variants) *)
 Theorem C10_python_empty_union_refuted :
   exists cfg pd text, known_C10 CPY [] pd = ["C10-python-empty-union"%string] /\
